@@ -256,6 +256,15 @@ class Driver:
             props.append(CIMProperty("K", Uint32(1)))      # K2 missing
         inst = CIMInstance(self.cls(c["cls"]), properties=props)
         nsname = self.ns(c["ns"])
+        if k and self.rng.random() < 0.3:
+            # an instance as another operation returned it: it carries a
+            # path, possibly of ANOTHER namespace; with an explicit namespace
+            # argument the path does not matter (assigned after construction,
+            # see do_modify)
+            inst.path = CIMInstanceName(
+                self.cls(c["cls"]), keybindings=self.keyb(k),
+                namespace=self.rng.choice([NS1, NS2, nsname, "root/elsewhere"]),
+                host=self.rng.choice([None, "h:5988"]))
         self.calls.append("CreateInstance(%r, namespace=%r)" % (inst, nsname))
         self.handed.append(inst)
         try:
@@ -306,10 +315,19 @@ class Driver:
     def do_get(self, c):
         path = self.path(c["ns"], c["cls"], c["k"])
         pl = self.plist(c["hasplist"], c["plist"])
-        self.calls.append("GetInstance(%r, PropertyList=%r)" % (path, pl))
+        # flags that must not influence the property values returned
+        # (LocalOnly is documented as ignored by the mock, DSP0200 deprecates
+        # it; qualifiers and class origin are additional information)
+        fl = {}
+        for name in ("LocalOnly", "IncludeQualifiers", "IncludeClassOrigin"):
+            v = self.rng.choice([None, None, True, False])
+            if v is not None:
+                fl[name] = v
+        self.calls.append("GetInstance(%r, PropertyList=%r, %r)" %
+                          (path, pl, fl))
         self.handed.append(path)
         try:
-            inst = self.conn.GetInstance(path, PropertyList=pl)
+            inst = self.conn.GetInstance(path, PropertyList=pl, **fl)
             res = dict(ok=True, code=0, rinsts=[row_of(inst)])
             self.handed.append(inst)
         except Exception as exc:  # noqa
@@ -323,9 +341,15 @@ class Driver:
                           "DeepInheritance=%r, PropertyList=%r)" %
                           (cn, nsname, c["deep"], pl))
         try:
+            fl = {}
+            for name in ("LocalOnly", "IncludeQualifiers",
+                         "IncludeClassOrigin"):
+                v = self.rng.choice([None, None, True, False])
+                if v is not None:
+                    fl[name] = v
             insts = self.conn.EnumerateInstances(
                 cn, namespace=nsname, DeepInheritance=c["deep"],
-                PropertyList=pl)
+                PropertyList=pl, **fl)
             res = dict(ok=True, code=0, rinsts=[row_of(i) for i in insts])
             self.handed += list(insts)
         except Exception as exc:  # noqa
